@@ -943,14 +943,45 @@ def metamorphic_scipy(run: Run, model, kind):
         with quiet(), warnings.catch_warnings():
             warnings.simplefilter("ignore")
             return model.personalize(d, "scipy_minimize", seed=0, progress_bar=False, **kw)
+    def pers_delayed_threads(d):
+        """n_jobs=2 on joblib's threading backend with the FIRST individual's task delayed (recording wrapper, same process): the
+        results are then certain to be produced out of submission order, so a pairing by position cannot go unnoticed."""
+        import time as _time
+        import joblib
+        import leaspy.algo.personalize.scipy_minimize as sm
+        cls = sm.ScipyMinimizeAlgorithm
+        orig = cls._get_individual_parameters_patient_master
+
+        def slow(self, state, *, patient_id=None, **k):
+            if str(patient_id) == str(ids[0]):
+                _time.sleep(1.5)
+            return orig(self, state, patient_id=patient_id, **k)
+        cls._get_individual_parameters_patient_master = slow
+        try:
+            with joblib.parallel_backend("threading"):
+                return pers(d, n_jobs=2)
+        finally:
+            cls._get_individual_parameters_patient_master = orig
     try:
         base = pers(df)
         perm = pers(reorder_blocks(df, [ids[2], ids[0], ids[3], ids[1]]))
         par = pers(df, n_jobs=2) if (run.tier == "thorough" or kind == "logistic") else base   # quick: worker processes for one kind only
         single = pers(df[df.ID == ids[1]])
+        thr = pers_delayed_threads(df)
     except Exception as e:
         run.fail(f"scipy:metamorphic-raises:{type(e).__name__}", f"{type(e).__name__}: {e}", dict(kind=kind))
         return
+    if list(thr._indices) != ids:
+        run.fail("aligned:ids", "output order differs from the input order (two workers, first task delayed)", dict(kind=kind, ids=ids))
+    else:
+        for pid in ids:
+            rp = row_of(thr, pid, names)
+            dist = {q: max(abs(x - y) / (1 + abs(y)) for x, y in zip(rp, row_of(base, q, names))) for q in ids}
+            if min(dist, key=dist.get) != pid or dist[pid] > 2e-2:
+                run.fail("aligned:n-jobs-order", "with two workers and the first individual's task finishing last, the row returned for an "
+                         "individual is not (close to) its own single-worker row", dict(kind=kind, model="fitted", algo="scipy_minimize", ids=ids, id=pid,
+                                                                                      backend="threading, first task delayed"),
+                         expected=row_of(base, pid, names), observed=rp)
     run.case(("metamorphic", kind), nontrivial=True)
     inp = dict(kind=kind, model="fitted", algo="scipy_minimize", ids=ids)
     if list(perm._indices) != [ids[2], ids[0], ids[3], ids[1]] or list(par._indices) != ids:
